@@ -13,7 +13,7 @@ def shard(args):
     bdir, wd, seed, s, nsh, n = args
     cases, meta = [], {}
     for i in range(s, n, nsh):
-        ex = grammar.gen_exchange(seed * 1000003 + i, {'res_fold': False, 'p_interim': 0.06})
+        ex = grammar.gen_exchange(seed * 1000003 + i, {'res_fold': 'model', 'p_interim': 0.06})
         r = grammar.Rng(seed * 7919 + i)
         kind, ops = oracle.schedules(ex, r)
         if r.chance(0.5):
@@ -32,7 +32,7 @@ def shard(args):
             ops = nops
             kind += '+reqcuts'
         cfg = {'PERSONALITY': r.randrange(10), 'URLENC_PARSER': 1, 'MULTIPART_PARSER': r.randrange(2), 'DUMP': hxb.DUMP_TX | hxb.DUMP_BODY,
-               'AUTO_DESTROY': 1 if r.chance(0.2) else 0, 'TX_HOOKS': r.randrange(2), 'CFG_COPY': 1 if r.chance(0.1) else 0,
+               'AUTO_DESTROY': 1 if r.chance(0.2) else 0, 'TX_HOOKS': r.randrange(3), 'CFG_COPY': 1 if r.chance(0.1) else 0,
                # the two request-field switches, independently (what is switched on must be reported whatever the other switch says)
                'PARSE_COOKIES': 0 if r.chance(0.15) else 1, 'PARSE_AUTH': 0 if r.chance(0.15) else 1}
         if not cfg['AUTO_DESTROY'] and r.chance(0.2):
